@@ -210,6 +210,8 @@ def run_history(ops, mode):
         elif op[0] == "nodes":
             nodes = [Node(conv(p, exact), conv(w, exact), data={"i": i}) for i, (p, w) in enumerate(op[1])]
             engine.nodes(nodes)
+        elif op[0] == "renodes":
+            engine.nodes(nodes)         # the same Node objects again (they may carry stubs / layer numbers of the last layout)
         elif op[0] == "empty-nodes":
             engine.nodes([])            # returns the current list, does not clear (documented quirk of the getter/setter)
         elif op[0] == "options":
